@@ -27,5 +27,5 @@ for C in $CHECKS; do
 done
 git -C $WT checkout -q -- pynndescent; rm -rf $WT/.nbcache_seedcheck $WT/pynndescent/__pycache__
 # regenerate Gen/ from the real repo again
-for t in harness/translate_*.py; do /venv/bin/python $t > /dev/null 2>&1; done
+[ -n "$SEED_NOREGEN" ] || for t in harness/translate_*.py; do /venv/bin/python $t > /dev/null 2>&1; done
 echo "{\"demo_clean_exit\": $DC, \"demo_mutated_exit\": $DM, \"checks\": \"$RES\"}" > $DEST/ran.json
